@@ -1,5 +1,6 @@
 //! vcheck: runs the check of one property (default revm feature set).
 mod common;
+mod dbcheck;
 mod evmrun;
 mod histcheck;
 mod journalcheck;
@@ -57,6 +58,7 @@ fn main() {
         "C17" => statecheck::c17(&mut ctx),
         "C18" => statecheck::c18(&mut ctx),
         "C19" => statecheck::c19(&mut ctx),
+        "C20" => dbcheck::c20(&mut ctx),
         "C21" => histcheck::c21(&mut ctx),
         "C22" => histcheck::c22(&mut ctx),
         "C25" => monchecks::c25(&mut ctx),
